@@ -213,6 +213,16 @@ class ObsInterp(ObjInterp):
         o = self.obj_of(e0, fr)
         return o if o in OBJS else None
 
+    def reg_event(self, st, what, x, o):
+        d = self.ev(st, '%s(%s,%s)' % (what, x, o))
+        cur = list(d.get('r:' + o, ()))
+        if what == 'reg':
+            cur.append(x)
+        else:
+            cur = [y for y in cur if y != x]
+        d['r:' + o] = tuple(sorted(cur))
+        return freeze(d)
+
     def list_owner(self, e, st, fr):
         """the observable ('P'/'Q') whose observer list the expression designates (X->observers, or a local reference to it)"""
         tu = self.tu
@@ -250,12 +260,28 @@ class ObsInterp(ObjInterp):
             return False
         if p.get('kind') == 'VarDecl':
             return '&' in p.get('type', {}).get('qualType', '')
-        if p.get('kind') == 'MemberExpr' and p.get('name') in ('begin', 'end'):
+        if p.get('kind') == 'MemberExpr' and p.get('name') in ('push_back', 'emplace_back', 'erase', 'size', 'empty'):
+            return True           # decided by the transfer function of that member call
+        if p.get('kind') == 'CallExpr' and not tu.sd(p).get('q', '').startswith('std::'):
+            return True           # handed to a helper: decided at the call
+        if p.get('kind') == 'MemberExpr' and p.get('name') in ('begin', 'end', 'cbegin', 'cend'):
             q = tu.par(p)
             hops = 0
             while q is not None and hops < 12:
                 if q.get('kind') == 'CallExpr':
+                    if tu.sd(q).get('q') == 'std::remove':
+                        # std::remove(...) must in turn be the first argument of erase on a list
+                        r_ = tu.par(q)
+                        for _ in range(8):
+                            if r_ is None:
+                                return False
+                            if r_.get('kind') == 'CXXMemberCallExpr':
+                                return tu.sd(r_).get('q', '').split('::')[-1] == 'erase'
+                            r_ = tu.par(r_)
+                        return False
                     return tu.sd(q).get('q') == 'std::replace'
+                if q.get('kind') == 'CXXMemberCallExpr' and tu.sd(q).get('q', '').split('::')[-1] == 'erase':
+                    return True
                 if q.get('kind') not in ('CXXMemberCallExpr', 'MaterializeTemporaryExpr', 'ImplicitCastExpr', 'CXXConstructExpr',
                                          'CXXBindTemporaryExpr', 'ExprWithCleanups', 'CXXFunctionalCastExpr'):
                     return False
@@ -670,6 +696,38 @@ class ObsInterp(ObjInterp):
                     self.und('lastObserved is assigned from the notification stamp at %s (catch-up by assignment is not modelled)' % tu.loc(n))
                 return [st]
             if sd.get('rec') == TS or q in ('std::move', 'std::forward', 'std::addressof'):
+                return [st]
+            if obj is not None and k in ('CXXMemberCallExpr', 'CXXOperatorCallExpr') and self.list_owner(obj, st, fr) is not None:
+                x = self.list_owner(obj, st, fr)
+                nm = q.split('::')[-1]
+                if nm in ('begin', 'end', 'cbegin', 'cend', 'size', 'empty'):
+                    return [st]
+                if nm in ('push_back', 'emplace_back') and len(args) == 1:
+                    p_ = self.pval(args[0], st, fr)
+                    if isinstance(p_, tuple) and p_[0] == 'addr' and p_[1] and p_[1] not in OBJS:
+                        return [self.reg_event(st, 'reg', x, p_[1])]
+                if nm == 'erase' and len(args) == 2:
+                    first = unwrap_iter(tu, args[0])
+                    if first is not None and first.get('kind') == 'CallExpr' and tu.sd(first).get('q') == 'std::remove':
+                        s2_, o2_, ra = tu.call_parts(first)
+                        p_ = self.pval(ra[2], st, fr) if len(ra) == 3 else None
+                        if len(ra) == 3 and self.list_end(ra[0], st, fr, ('begin', 'cbegin')) == x and self.list_end(ra[1], st, fr, ('end', 'cend')) == x \
+                                and self.list_end(args[1], st, fr, ('end', 'cend')) == x and isinstance(p_, tuple) and p_[0] == 'addr' and p_[1] not in OBJS:
+                            return [self.reg_event(st, 'unreg', x, p_[1])]
+                self.und('operation %s on an observer list in a form the analysis does not model at %s' % (nm, tu.loc(n)))
+                return [st]
+            if q == 'std::remove':
+                return [st]           # decided where its result is consumed (erase)
+            lists = [(i, self.list_owner(a_, st, fr)) for i, a_ in enumerate(args) if self.list_owner(a_, st, fr) is not None]
+            if lists and k == 'CallExpr' and not q.startswith('std::'):
+                cal = tu.callee_fn(n)
+                eff = list_helper_effect(tu, cal, self.F) if cal is not None and tu.cfg(cal) is not None and len(lists) == 1 else None
+                if eff is not None and eff[1] == lists[0][0] and eff[2] < len(args):
+                    p_ = self.pval(args[eff[2]], st, fr)
+                    if isinstance(p_, tuple) and p_[0] == 'addr' and p_[1] and p_[1] not in OBJS:
+                        self.inlined[cal['id']] = self.inlined.get(cal['id'], 0) + 1
+                        return [self.reg_event(st, eff[0], lists[0][1], p_[1])]
+                self.und('an observer list is handed to %s at %s, whose effect on it is not understood' % (q or '?', tu.loc(n)))
                 return [st]
             if q == 'std::replace' and len(args) == 4:
                 # std::replace(L.begin(), L.end(), &a, &b) on an observer list: every entry for a becomes an entry for b
@@ -1137,6 +1195,105 @@ def for_each_orphans(tu, f, F, al, analysed):
     return ('ok', 'std::for_each over the whole observer list with a lambda that assigns null to the observee of its argument')
 
 
+def list_helper_effect(tu, fn, F):
+    """free helper that receives an observer list by reference and an Observer* by value:
+    ('unreg', list param index, entry param index) if its body is  L.erase(std::remove(L.begin(), L.end(), entry), L.end())  on
+    every path and nothing else touches L;  ('reg', i, j) for  L.push_back(entry);  else None"""
+    ps = fn.get('params', [])
+    li = [i for i, p in enumerate(ps) if re.match(r'std::vector<rkcommon::utility::Observer \*.*> &$', p['ct'].strip())]
+    ei = [i for i, p in enumerate(ps) if ptr_to(base_type(p['ct']), OBSR) or ptr_to(p['ct'], OBSR)]
+    g = tu.cfg(fn)
+    if len(li) != 1 or len(ei) != 1 or g is None or g.back_edges():
+        return None
+    al = {ps[li[0]]['id']}
+    eid = ps[ei[0]]['id']
+    calls = []
+    for x in tu.walk(tu.body(fn)):
+        if x.get('kind') in ('CXXMemberCallExpr', 'CXXOperatorCallExpr'):
+            sd, obj, args = tu.call_parts(x)
+            if obj is not None and tu.ref_decl(obj) in al:
+                nm = sd.get('q', '').split('::')[-1]
+                if nm not in ('begin', 'end', 'cbegin', 'cend'):
+                    calls.append((nm, x, args))
+    if len(calls) != 1 or not on_every_path(g, calls[0][1]['id']):
+        return None
+    nm, x, args = calls[0]
+    if nm in ('push_back', 'emplace_back') and len(args) == 1 and tu.ref_decl(args[0]) == eid:
+        return ('reg', li[0], ei[0])
+    if nm == 'erase' and len(args) == 2:
+        first = unwrap_iter(tu, args[0])
+        if first is not None and first.get('kind') == 'CallExpr' and tu.sd(first).get('q') == 'std::remove':
+            s_, o_, ra = tu.call_parts(first)
+            if len(ra) == 3 and is_list_end(tu, ra[0], F, al, ('begin', 'cbegin')) and is_list_end(tu, ra[1], F, al, ('end', 'cend')) \
+                    and tu.ref_decl(ra[2]) == eid and is_list_end(tu, args[1], F, al, ('end', 'cend')):
+                return ('unreg', li[0], ei[0])
+    return None
+
+
+def drain_orphans(tu, f, F, al):
+    """~Observable as a drain loop:  while (!L.empty()) { Observer *o = L.back(); L.pop_back(); o->observee = nullptr; }
+    every iteration takes the last entry off the list and orphans it; the loop ends when the list is empty, so every
+    registered observer is orphaned exactly once.  Straight-line body only."""
+    loops = [x for x in tu.walk(tu.body(f)) if x.get('kind') == 'WhileStmt']
+    if len(loops) != 1:
+        return None
+    ks = tu.kids(loops[0])
+    if len(ks) != 2:
+        return None
+    cond, body = tu.strip(ks[0], casts=True), ks[1]
+    neg = False
+    while cond is not None and cond.get('kind') == 'UnaryOperator' and cond.get('opcode') == '!':
+        neg = not neg
+        cond = tu.strip(tu.kids(cond)[0], casts=True)
+    if cond is None or cond.get('kind') != 'CXXMemberCallExpr' or not neg:
+        return None
+    sd, obj, a_ = tu.call_parts(cond)
+    if sd.get('q', '').split('::')[-1] != 'empty' or obj is None or not list_expr(tu, obj, F, al):
+        return None
+    if not on_every_path(tu.cfg(f), cond['id']):
+        return ('undecided', 'the drain loop is not executed on every path of the destructor')
+    if any(z.get('kind') in ('BreakStmt', 'ReturnStmt', 'GotoStmt', 'CXXThrowExpr', 'ContinueStmt', 'IfStmt', 'ConditionalOperator', 'ForStmt',
+                             'WhileStmt', 'DoStmt', 'SwitchStmt') for z in tu.walk(body)):
+        return ('undecided', 'the drain loop has a body that is not straight-line code')
+    elem, pops, others = None, 0, []
+    for x in tu.walk(body):
+        if x.get('kind') == 'VarDecl' and tu.kids(x):
+            init = tu.strip(tu.kids(x)[-1], casts=True)
+            if init is not None and init.get('kind') == 'CXXMemberCallExpr':
+                sd, obj, a_ = tu.call_parts(init)
+                if sd.get('q', '').split('::')[-1] == 'back' and obj is not None and list_expr(tu, obj, F, al) and '&' not in x.get('type', {}).get('qualType', ''):
+                    elem = x
+        if x.get('kind') == 'CXXMemberCallExpr':
+            sd, obj, a_ = tu.call_parts(x)
+            if obj is not None and list_expr(tu, obj, F, al):
+                nm = sd.get('q', '').split('::')[-1]
+                if nm == 'pop_back':
+                    pops += 1
+                elif nm not in ('back', 'empty', 'size'):
+                    others.append(nm)
+    if elem is None or pops != 1 or others:
+        return ('undecided', 'the loop over the observer list is not the recognised drain form (o = back(); pop_back(); orphan o)')
+    assigns = []
+    for x in tu.walk(body):
+        if x.get('kind') == 'BinaryOperator' and x.get('opcode') == '=':
+            lhs = tu.strip(tu.kids(x)[0], casts=True)
+            if lhs.get('kind') == 'MemberExpr' and tu.sd(lhs).get('d') == F.observee['id'] and tu.kids(lhs) and \
+                    tu.ref_decl(tu.kids(lhs)[0]) == elem['id']:
+                assigns.append(null_literal(tu, tu.kids(x)[1]))
+    ORPHAN['ctx'].add(f['q'])
+    if assigns:
+        if all(assigns):
+            return ('ok', 'drain loop: every entry is taken off the list (back/pop_back) and its observee set to null until the list is empty')
+        return ('violation', 'orphan-not-null', '~Observable assigns a non-null value to the observee of its observers')
+    h = element_orphaned_by_helper(tu, F, body, elem['id'], lambda x: True)
+    if h is not None and h[0] == 'yes':
+        return ('ok', 'drain loop: every entry is taken off the list and ' + h[1])
+    if h is not None and h[0] == 'unknown':
+        return ('undecided', h[1])
+    return ('violation', 'no-orphaning', '~Observable takes its observers off the list without clearing their observee pointer: every '
+            'registered observer keeps a dangling pointer')
+
+
 def compaction_remove(tu, f, F, al):
     """hand-written erase-remove:   keep = L.begin();  for (it = L.begin(); it != L.end(); ++it) if (*it != &arg) *keep++ = *it;
     L.erase(keep, L.end());   -- the reference implementation of std::remove followed by erase.  Exact shape only."""
@@ -1420,76 +1577,89 @@ def check_observable(ctx, tu, F, analysed):
         if f.get('rec') == OBSV and not f['dep'] and tu.cfg(f) is not None:
             byq.setdefault('dtor' if f.get('dtor') else f['q'], []).append(f)
     for need in (REG, UNREG, NOTIFY, 'dtor'):
+        if need in (REG, UNREG) and not byq.get(need):
+            continue          # the registration primitives may live in Observer (a friend): then the interpreter models them
         if len(byq.get(need, [])) != 1:
             ctx.broken('R-C19-1: expected exactly one body of Observable %s, found %d' % (need, len(byq.get(need, []))))
             return n
-    # ---- registerObserver
-    f0 = byq[REG][0]
-    analysed.add(f0['id'])
-    f = follow_forwarding(tu, f0)
-    analysed.add(f['id'])
-    n += 1
-    inst, file = fn_name(f0), tu.fn_file(f0)
-    al = list_aliases(tu, f, F)
-    calls = list_calls(tu, f, F, al)
-    appends = [c for c in calls if c[0] in ('push_back', 'emplace_back') and len(c[2]) == 1 and addr_of_param(tu, c[2][0], f)]
-    g = tu.cfg(f)
-    if not calls and own_member_calls(tu, f):
-        ctx.undecided(R1, inst, 'registerObserver delegates to other members in a form the analysis does not follow', tu.fn_loc(f))
-    elif not calls:
-        ctx.violation(R1, inst, 'registerObserver does not add the observer to the list: ~Observable cannot orphan it and the observer '
-                      'keeps a dangling observee pointer', tu.fn_loc(f), key='%s|%s|%s|not-registered' % (R1, file, inst))
-    elif len(appends) == 1 and len(calls) == 1 and on_every_path(g, appends[0][1]['id']):
-        ctx.ok(R1, inst, 'appends the address of its argument exactly once on every path', tu.fn_loc(f))
-    else:
-        ctx.undecided(R1, inst, 'list operations %s are not the recognised form push_back(&arg) on every path' % [c[0] for c in calls], tu.fn_loc(f))
-    # ---- removeObserver
-    f0 = byq[UNREG][0]
-    analysed.add(f0['id'])
-    f = follow_forwarding(tu, f0)
-    analysed.add(f['id'])
-    n += 1
-    inst, file = fn_name(f0), tu.fn_file(f0)
-    al = list_aliases(tu, f, F)
-    calls = list_calls(tu, f, F, al)
-    erases = [c for c in calls if c[0] == 'erase']
-    removes = [x for x in tu.walk(tu.body(f)) if x.get('kind') == 'CallExpr' and tu.sd(x).get('q') == 'std::remove']
-    good_remove = None
-    for r in removes:
-        s_, o_, a = tu.call_parts(r)
-        if len(a) == 3 and is_list_end(tu, a[0], F, al, ('begin', 'cbegin')) and is_list_end(tu, a[1], F, al, ('end', 'cend')) \
-                and addr_of_param(tu, a[2], f):
-            good_remove = r
-    mutating = [c for c in calls if c[0] not in ('begin', 'end', 'cbegin', 'cend', 'size', 'empty')]
-    bypath = remove_by_paths(tu, f, F, al)
-    if bypath is not None and bypath[0] == 'violation':
-        ctx.violation(R1, inst, bypath[2], tu.fn_loc(f), key='%s|%s|%s|%s' % (R1, file, inst, bypath[1]))
-    elif bypath is not None and len(cfg_paths(tu.cfg(f))) > 1:
-        ctx.ok(R1, inst, 'every path removes exactly the given observer: ' + bypath[1], tu.fn_loc(f))
-    elif compaction_remove(tu, f, F, al):
-        ctx.ok(R1, inst, 'hand-written stable compaction (the definition of std::remove) followed by erase(keep, end) on the observer list',
-               tu.fn_loc(f))
-    elif not mutating and not removes and own_member_calls(tu, f):
-        ctx.undecided(R1, inst, 'removeObserver delegates to other members in a form the analysis does not follow', tu.fn_loc(f))
-    elif not mutating and not removes:
-        ctx.violation(R1, inst, 'removeObserver does not remove the observer from the list: ~Observable later writes through a dangling '
-                      'Observer*', tu.fn_loc(f), key='%s|%s|%s|not-removed' % (R1, file, inst))
-    elif good_remove is not None and not erases:
-        ctx.violation(R1, inst, 'std::remove without erase: the list keeps its length and a stale Observer* stays in its tail',
-                      tu.fn_loc(f), key='%s|%s|%s|remove-without-erase' % (R1, file, inst))
-    elif good_remove is not None and len(erases) == 1 and len(mutating) == 1:
-        ea = erases[0][2]
-        first = unwrap_iter(tu, ea[0]) if ea else None
-        if len(ea) == 2 and first is not None and first['id'] == good_remove['id'] and is_list_end(tu, ea[1], F, al, ('end', 'cend')) \
-                and on_every_path(tu.cfg(f), erases[0][1]['id']):
-            ctx.ok(R1, inst, 'erase(remove(begin, end, &arg), end) on the observer list', tu.fn_loc(f))
-        elif len(ea) == 1 and first is not None and first['id'] == good_remove['id']:
-            ctx.violation(R1, inst, 'erase(remove(...)) with a single iterator erases one element only, and erase(end()) when the observer '
-                          'is not in the list is undefined', tu.fn_loc(f), key='%s|%s|%s|erase-one' % (R1, file, inst))
+    if byq.get(REG):
+        # ---- registerObserver
+        f0 = byq[REG][0]
+        analysed.add(f0['id'])
+        f = follow_forwarding(tu, f0)
+        analysed.add(f['id'])
+        n += 1
+        inst, file = fn_name(f0), tu.fn_file(f0)
+        al = list_aliases(tu, f, F)
+        calls = list_calls(tu, f, F, al)
+        appends = [c for c in calls if c[0] in ('push_back', 'emplace_back') and len(c[2]) == 1 and addr_of_param(tu, c[2][0], f)]
+        g = tu.cfg(f)
+        if not calls and own_member_calls(tu, f):
+            ctx.undecided(R1, inst, 'registerObserver delegates to other members in a form the analysis does not follow', tu.fn_loc(f))
+        elif not calls:
+            ctx.violation(R1, inst, 'registerObserver does not add the observer to the list: ~Observable cannot orphan it and the observer '
+                          'keeps a dangling observee pointer', tu.fn_loc(f), key='%s|%s|%s|not-registered' % (R1, file, inst))
+        elif len(appends) == 1 and len(calls) == 1 and on_every_path(g, appends[0][1]['id']):
+            ctx.ok(R1, inst, 'appends the address of its argument exactly once on every path', tu.fn_loc(f))
         else:
-            ctx.undecided(R1, inst, 'erase/remove combination not in the recognised form', tu.fn_loc(f))
+            ctx.undecided(R1, inst, 'list operations %s are not the recognised form push_back(&arg) on every path' % [c[0] for c in calls], tu.fn_loc(f))
     else:
-        ctx.undecided(R1, inst, 'list operations %s are not the recognised erase-remove idiom' % [c[0] for c in calls], tu.fn_loc(f))
+        n += 1
+        ctx.ok(R1, 'Observable::registerObserver (absent)', 'no registerObserver member: Observer members append themselves to the list directly; '
+               'each such list operation is modelled by the registration interpreter (push_back(this) = registration)', HDR_O, nontrivial=False)
+    if byq.get(UNREG):
+        # ---- removeObserver
+        f0 = byq[UNREG][0]
+        analysed.add(f0['id'])
+        f = follow_forwarding(tu, f0)
+        analysed.add(f['id'])
+        n += 1
+        inst, file = fn_name(f0), tu.fn_file(f0)
+        al = list_aliases(tu, f, F)
+        calls = list_calls(tu, f, F, al)
+        erases = [c for c in calls if c[0] == 'erase']
+        removes = [x for x in tu.walk(tu.body(f)) if x.get('kind') == 'CallExpr' and tu.sd(x).get('q') == 'std::remove']
+        good_remove = None
+        for r in removes:
+            s_, o_, a = tu.call_parts(r)
+            if len(a) == 3 and is_list_end(tu, a[0], F, al, ('begin', 'cbegin')) and is_list_end(tu, a[1], F, al, ('end', 'cend')) \
+                    and addr_of_param(tu, a[2], f):
+                good_remove = r
+        mutating = [c for c in calls if c[0] not in ('begin', 'end', 'cbegin', 'cend', 'size', 'empty')]
+        bypath = remove_by_paths(tu, f, F, al)
+        if bypath is not None and bypath[0] == 'violation':
+            ctx.violation(R1, inst, bypath[2], tu.fn_loc(f), key='%s|%s|%s|%s' % (R1, file, inst, bypath[1]))
+        elif bypath is not None and len(cfg_paths(tu.cfg(f))) > 1:
+            ctx.ok(R1, inst, 'every path removes exactly the given observer: ' + bypath[1], tu.fn_loc(f))
+        elif compaction_remove(tu, f, F, al):
+            ctx.ok(R1, inst, 'hand-written stable compaction (the definition of std::remove) followed by erase(keep, end) on the observer list',
+                   tu.fn_loc(f))
+        elif not mutating and not removes and own_member_calls(tu, f):
+            ctx.undecided(R1, inst, 'removeObserver delegates to other members in a form the analysis does not follow', tu.fn_loc(f))
+        elif not mutating and not removes:
+            ctx.violation(R1, inst, 'removeObserver does not remove the observer from the list: ~Observable later writes through a dangling '
+                          'Observer*', tu.fn_loc(f), key='%s|%s|%s|not-removed' % (R1, file, inst))
+        elif good_remove is not None and not erases:
+            ctx.violation(R1, inst, 'std::remove without erase: the list keeps its length and a stale Observer* stays in its tail',
+                          tu.fn_loc(f), key='%s|%s|%s|remove-without-erase' % (R1, file, inst))
+        elif good_remove is not None and len(erases) == 1 and len(mutating) == 1:
+            ea = erases[0][2]
+            first = unwrap_iter(tu, ea[0]) if ea else None
+            if len(ea) == 2 and first is not None and first['id'] == good_remove['id'] and is_list_end(tu, ea[1], F, al, ('end', 'cend')) \
+                    and on_every_path(tu.cfg(f), erases[0][1]['id']):
+                ctx.ok(R1, inst, 'erase(remove(begin, end, &arg), end) on the observer list', tu.fn_loc(f))
+            elif len(ea) == 1 and first is not None and first['id'] == good_remove['id']:
+                ctx.violation(R1, inst, 'erase(remove(...)) with a single iterator erases one element only, and erase(end()) when the observer '
+                              'is not in the list is undefined', tu.fn_loc(f), key='%s|%s|%s|erase-one' % (R1, file, inst))
+            else:
+                ctx.undecided(R1, inst, 'erase/remove combination not in the recognised form', tu.fn_loc(f))
+        else:
+            ctx.undecided(R1, inst, 'list operations %s are not the recognised erase-remove idiom' % [c[0] for c in calls], tu.fn_loc(f))
+    else:
+        n += 1
+        ctx.ok(R1, 'Observable::removeObserver (absent)', 'no removeObserver member: Observer members remove themselves from the list directly; '
+               'each such list operation is modelled by the registration interpreter (erase-remove = removal, also through a free helper)',
+               HDR_O, nontrivial=False)
     # ---- ~Observable
     f0 = byq['dtor'][0]
     analysed.add(f0['id'])
@@ -1512,7 +1682,7 @@ def check_observable(ctx, tu, F, analysed):
     elif len(loops) == 1:
         verdict = range_for_orphans(tu, f, g, loops[0], F, al)
     elif not loops:
-        verdict = for_each_orphans(tu, f, F, al, analysed)
+        verdict = for_each_orphans(tu, f, F, al, analysed) or drain_orphans(tu, f, F, al)
     if verdict is None:
         ctx.undecided(R1, inst, 'destructor visits the observer list in a form the analysis does not recognise (expected a range-for '
                       'assigning null to the observee of every element)', tu.fn_loc(f))
@@ -2084,6 +2254,7 @@ def check_timestamp(ctx, tu_src, tu_drv, lib_tus, analysed_names):
                                                                           else 'external linkage / class static, single definition'), tnx.fn_loc(fnext))
     # ---- nextValue
     n += 1
+    next_offsets = set()      # value handed out minus the counter value before the increment, per path
     g = tu_src.cfg(fnext)
     inst = 'TimeStamp::nextValue'
     kbase = '%s|%s|TimeStamp::nextValue|' % (R3, tu_src.fn_file(fnext))
@@ -2136,12 +2307,14 @@ def check_timestamp(ctx, tu_src, tu_drv, lib_tus, analysed_names):
                 problems.append(('not-one-rmw', 'nextValue must advance global by exactly one atomic increment per call; this path performs: %s'
                                  % ([a[1] for x, a in rmw] or 'none')))
                 continue
+            off = rmw_offset(tu_src, ret, rmw[0][0]['id'], var_init) if ret is not None else None
             if ret is not None and ret.get('kind') == 'DeclRefExpr' and ret.get('referencedDecl', {}).get('id') in var_init:
                 ret = tu_src.strip(var_init[ret['referencedDecl']['id']], casts=True)
             if ret is None:
                 undec.append('no return value')
-            elif ret['id'] == rmw[0][0]['id']:
-                pass
+            elif off is not None:
+                # the value handed out is (result of the one increment) + constant: still one distinct, increasing value per call
+                next_offsets.add(off + (rmw[0][1][1] if rmw[0][1][2] == 'new' else 0))
             elif atomic_call(tu_src, ret, is_global) and atomic_call(tu_src, ret, is_global)[0] == 'load':
                 problems.append(('separate-load', 'nextValue returns a separate load of global instead of the result of its own increment: '
                                  'two threads can obtain the same stamp'))
@@ -2176,10 +2349,15 @@ def check_timestamp(ctx, tu_src, tu_drv, lib_tus, analysed_names):
         inst = fn_name(f)
         key = '%s|%s|%s|' % (R3, t.fn_file(f), inst)
         if role is None:
-            if value_ops(t, f, VALUE)[0] or refs_global(t, f):
-                ctx.undecided(R3, inst, 'TimeStamp member touches the stamp but has no known role', t.fn_loc(f))
+            hf, hn, hu = value_ops(t, f, VALUE)
+            if not any(v != 'old' for v in hf) and not hu and not refs_global(t, f):
+                n -= 1              # does not write the stamp or the counter
+            elif f.get('access') == 'private' and not f.get('virt') and not callers_outside([tu_src, tu_drv] + list(lib_tus), q, {TS}):
+                analysed_names.add(q + ' ' + fty)
+                ctx.ok(R3, inst, 'private helper called only from TimeStamp members: followed at each call site with its arguments bound',
+                       t.fn_loc(f), nontrivial=False)
             else:
-                n -= 1
+                ctx.undecided(R3, inst, 'TimeStamp member touches the stamp but has no known role', t.fn_loc(f))
             continue
         analysed_names.add(q + ' ' + fty)
         if role == 'default':
@@ -2219,6 +2397,9 @@ def check_timestamp(ctx, tu_src, tu_drv, lib_tus, analysed_names):
     sites = []
     conv = {a[2] for b_, i_, x_ in tnx.cfg(fnext).stmts() for a in [atomic_call(tnx, x_, is_global)] if a and a[0] == 'rmw' and a[1] >= 1}
     conv0 = conv.pop() if len(conv) == 1 else None
+    off0 = next_offsets.pop() if len(next_offsets) == 1 else None
+    if off0 is None and conv0 is not None and not tnx.cfg(fnext).back_edges():
+        conv0 = None
     for t in [tu_src, tu_drv] + list(lib_tus):
         for f in t.functions.values():
             if f['dep'] or t.cfg(f) is None:
@@ -2232,15 +2413,22 @@ def check_timestamp(ctx, tu_src, tu_drv, lib_tus, analysed_names):
                     a = atomic_call(t, x, is_global)
                     if a and a[0] == 'rmw' and a[1] >= 1 and conv0 is not None:
                         # a second allocation site (e.g. renew() inlined): consistent only if it hands out the same side of the increment
-                        if a[2] == conv0:
+                        site_off = a[1] if a[2] == 'new' else 0
+                        if (off0 is not None and site_off == off0) or (off0 is None and a[2] == conv0):
                             sites.append('%s (%s)' % (f['q'], t.loc(x)))
                         else:
                             bad = True
                             side = {'old': 'the value before its increment (post-increment / fetch_add)', 'new': 'the value after its increment (pre-increment)'}
                             ctx.violation(R3, 'who-writes TimeStamp::global', '%s draws a stamp from global as %s while nextValue() hands out %s: the two '
                                           'allocation sites hand out the same number - the stamp produced here equals the one the other site produces '
-                                          'next (or produced last), so stamps are not unique across the two sites' % (f['q'], side[a[2]], side[conv0]),
+                                          'next (or produced last), so stamps are not unique across the two sites' % (
+                                              f['q'], side[a[2]], side[conv0] if off0 is None else
+                                              'the counter value before its increment %+d' % off0 if off0 else side['old']),
                                           t.loc(x), key='%s|%s|%s|allocation-sites-disagree' % (R3, t.fn_file(f), fn_name(f)))
+                    elif a and a[0] == 'rmw' and a[1] >= 1:
+                        bad = True
+                        ctx.undecided(R3, 'who-writes TimeStamp::global', '%s increments the counter, but the value nextValue() hands out could not be '
+                                      'related to its own increment, so the two allocation sites cannot be compared' % f['q'], t.loc(x))
                     elif a and a[0] in ('rmw', 'write'):
                         bad = True
                         ctx.violation(R3, 'who-writes TimeStamp::global', '%s modifies the global stamp counter outside nextValue(): stamps handed '
@@ -2281,6 +2469,28 @@ def cached_source(t, f, ret):
             static_local = vd is not None and (vd.get('storageClass') == 'static' or vd.get('tls'))
             if did not in local or static_local:
                 return x['referencedDecl'].get('name', '?')
+    return None
+
+
+def rmw_offset(t, e, rmw_id, var_init, depth=0):
+    """c if the expression equals (result of the RMW node) + c through const locals, casts and +/- integer constants, else None"""
+    e = t.strip(e, casts=True)
+    if e is None or depth > 8:
+        return None
+    if e.get('id') == rmw_id:
+        return 0
+    if e.get('kind') == 'DeclRefExpr' and e.get('referencedDecl', {}).get('id') in var_init:
+        return rmw_offset(t, var_init[e['referencedDecl']['id']], rmw_id, var_init, depth + 1)
+    if e.get('kind') == 'BinaryOperator' and e.get('opcode') in ('+', '-'):
+        l, r = t.kids(e)
+        cl = t.sd(t.strip(l)).get('cv') or t.sd(l).get('cv')
+        cr = t.sd(t.strip(r)).get('cv') or t.sd(r).get('cv')
+        if cr is not None:
+            o = rmw_offset(t, l, rmw_id, var_init, depth + 1)
+            return None if o is None else (o + int(cr) if e['opcode'] == '+' else o - int(cr))
+        if cl is not None and e['opcode'] == '+':
+            o = rmw_offset(t, r, rmw_id, var_init, depth + 1)
+            return None if o is None else o + int(cl)
     return None
 
 
